@@ -231,3 +231,14 @@ Theorem C03_notifier_rearm_is_source : forall more a,
   /\ efd (apply_cqe (notify_cqe more) a) = 0.
 Proof. exact notify_rearm_tie. Qed.
 Print Assumptions C03_notifier_rearm_is_source.
+
+(* Runtime::block_on_at (compio-runtime/src/lib.rs): the decision between a blocking wait in the
+   driver and a zero-timeout poll, as the source has it now (`if remaining_tasks { poll_with(Some(ZERO)) }
+   else { poll() }`), is the model's: in block_on mode the runtime thread enters its blocking wait
+   exactly when no runnable task remains - with runnable tasks left it never sleeps *)
+Theorem C03_block_on_wait_is_source : forall v s,
+  pc (r s) = REnter -> ext (c s) = false -> nw (r s) = true ->
+  exists s', rt_step v s = Some s' /\
+    (pc (r s') = RWait <-> Frag.block_on_blocks (rem (r s)) = true).
+Proof. exact block_on_wait_tie. Qed.
+Print Assumptions C03_block_on_wait_is_source.
